@@ -115,6 +115,19 @@ func checkC07(c *Check) {
 				c.Hold("R1", "applyResults:quarantine-flags", cc.Pos(), !f && len(start) > 0, "the quarantine action can complete without flagging the message: "+r.F.Describe(path))
 			}
 		}
+		// ---- R1d: with DMARC enabled the policy is evaluated on every path (no other verdict makes it optional)
+		c.Rule("R1d", "applyResults: when DMARC is enabled the verifier's verdict is obtained on every path – no other condition (e.g. the message is already quarantined) skips the policy", 1)
+		{
+			apply := r.Calls(calling("~/internal/dmarc.Verifier.Apply"))
+			world := r.F.World(func(atom ast.Expr) (bool, bool) {
+				if fv := fieldOf(info, atom); fv != nil && fv.Name() == "doDMARC" {
+					return true, true
+				}
+				return false, false
+			})
+			path, f := r.F.Reach(Query{From: r.Entry(), Inclusive: true, Target: r.F.IsExitPt, Avoid: isPt(apply), AvoidEdge: world})
+			c.Hold("R1d", "applyResults:always-evaluated", r.FI.Decl.Pos(), !f && len(apply) == 1, "with DMARC enabled the policy evaluation can be skipped: a message that another check merely quarantined escapes a published reject policy (or a temporary lookup failure is ignored): "+r.F.Describe(path))
+		}
 		// ---- R2b: temporary code exactly on the temporary-error branch
 		c.Rule("R2b", "applyResults: the reject reply is 4yz exactly when the DMARC result is a temporary error, 5yz otherwise", 1)
 		var lit *ast.CompositeLit
